@@ -789,10 +789,22 @@ def case_lists(thorough, seed):
     return sg, small, sampled, plan
 
 
+def deductive(ctx):
+    """engine D: on every path of the real Node._set_state the node's state is set exactly once, is None only when there is
+    nothing to split over, nothing to combine and no split upstream node, and otherwise is State(<node name>, ...) built from
+    deep copies of the task's own splitter / combiner (prefixed with the node name) and from what _get_upstream_states()
+    returned in this call -- contracts/node_state.py.  The merging algebra inside State is bounded only."""
+    from contracts import node_state as NS
+    from pyvc.verify import verify, summarize
+
+    summarize(ctx, verify(ctx, NS.contract()))
+
+
 def run(ctx):
     import concurrent.futures as cf
     import multiprocessing as mp
 
+    deductive(ctx)
     ctx.level = "other"
     ctx.explanation = (
         "generated small workflow graphs (python tasks returning provenance tuples; chains, fan-in, fan-out, diamonds, "
